@@ -17,17 +17,18 @@ import (
 // whose workers explore all interleavings of one scenario per task.
 
 type schedStatsM struct {
-	Executions  int      `json:"executions"`
-	Points      int      `json:"points"`
-	MaxPoints   int      `json:"max_points"`
-	Outcomes    []string `json:"outcomes"`
-	Violations  []string `json:"violations"`
-	Deadlocks   int      `json:"deadlocks"`
-	BoundDone   int      `json:"bound_done"`
-	Capped      bool     `json:"capped"`
-	Internal    string   `json:"internal"`
-	Preemptions int      `json:"max_preemptions_seen"`
-	PointLabels []string `json:"point_labels"`
+	Executions     int      `json:"executions"`
+	Points         int      `json:"points"`
+	MaxPoints      int      `json:"max_points"`
+	Outcomes       []string `json:"outcomes"`
+	Violations     []string `json:"violations"`
+	Deadlocks      int      `json:"deadlocks"`
+	BoundDone      int      `json:"bound_done"`
+	Capped         bool     `json:"capped"`
+	Internal       string   `json:"internal"`
+	Preemptions    int      `json:"max_preemptions_seen"`
+	PointLabels    []string `json:"point_labels"`
+	DistinctTraces int      `json:"distinct_traces"`
 }
 
 var schedRe = regexp.MustCompile(`^schedule \[([0-9 ]*)\]`)
@@ -127,6 +128,7 @@ func runSched13(rep *core.Report, tier string) {
 	labels := map[string]bool{}
 	outcomes := 0
 	boundHist := map[int]int{} // highest preemption bound completed (-1 = all interleavings) -> scenarios
+	traceTotal, multiTrace := 0, 0
 	pool.Map("schedbuild", len(jobs), func(i int) any {
 		sc := jobs[i].sc
 		c := Closure(sc.world(), sc.adds)
@@ -147,6 +149,10 @@ func runSched13(rep *core.Report, tier string) {
 		totalExec += st.Executions
 		totalPoints += st.Points
 		outcomes += len(st.Outcomes)
+		traceTotal += st.DistinctTraces
+		if st.DistinctTraces > 1 {
+			multiTrace++
+		}
 		if st.Capped {
 			capped++
 		}
@@ -184,7 +190,8 @@ func runSched13(rep *core.Report, tier string) {
 	rep.States += len(jobs)
 	rep.Transitions += totalExec
 	rep.Extra["sched_part"] = map[string]any{"scenarios": len(jobs), "schedules_explored": totalExec, "scheduling_points": totalPoints, "preemption_bound_completed(-1=all interleavings)->scenarios": fmt.Sprint(boundHist),
-		"scenarios_capped": capped, "max_exec_per_scenario": maxExec, "max_preemptions_seen": maxPre, "point_labels": ls, "distinct_outcomes_total": outcomes}
+		"scenarios_capped": capped, "max_exec_per_scenario": maxExec, "max_preemptions_seen": maxPre, "point_labels": ls, "distinct_outcomes_total": outcomes,
+		"distinct_callback_orders_total": traceTotal, "scenarios_where_interleavings_changed_the_callback_order": multiTrace}
 	fmt.Printf("  sched part: scenarios=%d schedules=%d points=%d capped=%d max_preemptions=%d labels=%v\n", len(jobs), totalExec, totalPoints, capped, maxPre, ls)
 	runRacePass(rep, "build", nil, jobs[len(jobs)/2].sc)
 }
